@@ -300,13 +300,25 @@ fn gen_tol_entry(rng: &mut Rng, around_m: f64) -> Given<f64> {
 fn gen_unit_entry(rng: &mut Rng) -> Given<DistanceUnit> {
     match rng.below(10) {
         0 | 1 | 2 | 3 => Given::Absent,
-        4 => Given::Bad(match rng.below(5) {
+        4 => Given::Bad(match rng.below(9) {
             0 => json!("METERS"),
             1 => json!("furlongs"),
             2 => json!(1),
             3 => Value::Null,
-            _ => json!(["meters"]),
+            4 => json!(["meters"]),
+            // near misses of serde's externally tagged form
+            5 => json!({"kilometers": 1}),
+            6 => json!({"kilometers": null, "meters": null}),
+            7 => json!({}),
+            _ => json!({"furlongs": null}),
         }),
+        5 => {
+            // serde also reads a unit-only enum from its externally tagged form {"<name>": null}
+            let u = *rng.pick(&D);
+            let mut m = Map::new();
+            m.insert(unit_name(&u), Value::Null);
+            Given::Good(Value::Object(m), u)
+        }
         _ => {
             let u = *rng.pick(&D);
             Given::Good(json!(unit_name(&u)), u)
@@ -403,6 +415,9 @@ pub fn vertex_builder_case(ctx: &mut Ctx, idx: usize, files: &Files) {
             let mut q = q0.clone();
             let r = catch_unwind(AssertUnwindSafe(|| p.process(&mut q))).map_err(|_| ());
             probe_ok = Some(matches!(r, Ok(Ok(()))));
+            if r.is_err() {
+                ctx.fail(idx, "builder/built-plugin-panics", format!("the plugin built from {} panicked on {}", cfg, q0));
+            }
             format!("ok {}", outcome_line(&r, &q))
         }
     };
@@ -455,6 +470,38 @@ pub fn vertex_builder_case(ctx: &mut Ctx, idx: usize, files: &Files) {
     }
 }
 
+/// corpus: the witness of the former defect "a geometry table whose centroid or coordinate is not finite builds,
+/// and every query then panics inside the r-tree" (all coordinates of the second row are finite f32 numbers)
+pub fn edge_builder_witness(ctx: &mut Ctx, idx: usize, files: &Files, k: usize) {
+    let rows = [
+        "LINESTRING (-105.1 39.5, -105.2 39.6)\nLINESTRING (3e38 0, -3e38 0)\nLINESTRING (-105.2 39.6, -105.3 39.7)\n",
+        "LINESTRING (1e39 0, 0 0)\nLINESTRING (1 1, 1 1.01)\nLINESTRING (2 1, 2 1.01)\n",
+    ];
+    let gfile = files.write("b_geometries.txt", rows[k]);
+    let readable = routee_compass_core::util::geo::geo_io_utils::read_linestring_text_file(&gfile).is_ok();
+    let cfg = json!({"type": "edge_rtree", "geometry_input_file": gfile});
+    let q0 = json!({"origin_x": -105.15, "origin_y": 39.55});
+    let built = catch_unwind(AssertUnwindSafe(|| (EdgeRtreeInputPluginBuilder {}).build(&cfg)));
+    let out = match &built {
+        Err(_) => "panic".to_string(),
+        Ok(Err(e)) => format!("err {}", cfg_err_kind(e)),
+        Ok(Ok(p)) => {
+            let mut q = q0.clone();
+            let r = catch_unwind(AssertUnwindSafe(|| p.process(&mut q))).map_err(|_| ());
+            if r.is_err() {
+                ctx.fail(idx, "builder/built-plugin-panics", format!("the plugin built from the geometry rows {:?} panicked on {}", rows[k], q0));
+            }
+            format!("ok {}", outcome_line(&r, &q))
+        }
+    };
+    if matches!(built, Ok(Ok(_))) {
+        ctx.fail(idx, "builder/accepts-malformed", format!("geometry rows {:?} were accepted", rows[k]));
+    }
+    let case = format!("b e {} n 0 {} 0 {} {} n", enc(&cfg), if readable { "s 3" } else { "n" }, if readable { 1 } else { 0 }, enc(&q0));
+    ctx.emit(idx, case, out);
+    ctx.count("builder_edge_corpus");
+}
+
 pub fn edge_builder_case(ctx: &mut Ctx, idx: usize, files: &Files) {
     let mut rng = Rng::for_case(ctx.seed, 16, idx as u64);
     // the first edge's centroid is (0,0); the others are far away
@@ -469,6 +516,29 @@ pub fn edge_builder_case(ctx: &mut Ctx, idx: usize, files: &Files) {
         good_geo.push_str("LINESTRING EMPTY\n");
     }
     let n_geo = if geo_empty { n_geo + 1 } else { n_geo };
+    // a coordinate that is not finite as f32, or finite coordinates whose centroid overflows, used to be loaded;
+    // the NaN distance_2 then made the r-tree search panic on every query
+    const NONFINITE_ROWS: [(&str, bool); 8] = [
+        ("LINESTRING (3e38 0, -3e38 0)", true), // all finite, the centroid is not
+        ("LINESTRING (2e38 0, 2e38 1)", true),
+        ("LINESTRING (0 3e38, 1 3.4e38, 2 3e38)", true),
+        ("LINESTRING (1e39 0, 0 0)", false), // beyond the f32 range: +inf
+        ("LINESTRING (-105.1 39.5, +NaN 39.6)", false),
+        ("LINESTRING (1e39 0, 1 -inf)", false),
+        ("LINESTRING (0 0, +INF 1)", false),
+        ("LINESTRING (0 -1e300, 1 1)", false),
+    ];
+    let geo_nonfinite = if !geo_empty && rng.chance(1, 6) { Some(NONFINITE_ROWS[rng.below(NONFINITE_ROWS.len())]) } else { None };
+    if let Some((row, _)) = geo_nonfinite {
+        // not always the last row
+        if rng.chance(1, 2) {
+            good_geo = format!("{}\n{}", row, good_geo);
+        } else {
+            good_geo.push_str(row);
+            good_geo.push('\n');
+        }
+    }
+    let n_geo = if geo_nonfinite.is_some() { n_geo + 1 } else { n_geo };
     let bad_geo = ["LINESTRING (nan 0, 1 1)\n", "LINESTRING (0 0, 1\n", "POINT (0 0)\n", "not wkt\n", "LINESTRING (a b, c d)\n"];
     let geo = gen_path_entry(&mut rng, files, "b_geometries.txt", &good_geo, &bad_geo, false);
     // road classes: right length, wrong length, unreadable
@@ -487,16 +557,24 @@ pub fn edge_builder_case(ctx: &mut Ctx, idx: usize, files: &Files) {
     let gc = haversine::coord_distance_meters(&to_f32(PROBE_Q), &to_f32((0.0, 0.0))).unwrap().as_f64();
     let tol = gen_tol_entry(&mut rng, gc);
     let unit = gen_unit_entry(&mut rng);
-    let parser: Given<()> = match rng.below(8) {
+    let parser: Given<()> = match rng.below(9) {
         0 | 1 | 2 | 3 => Given::Absent,
-        4 => Given::Bad(match rng.below(6) {
+        4 => Given::Bad(match rng.below(11) {
             0 => json!({"mapping": {"primary": "1"}}),
             1 => json!({"mapping": {"primary": 300}}),
             2 => json!({}),
             3 => json!("mapping"),
             4 => json!({"mapping": [1, 2]}),
-            _ => json!({"mapping": {"primary": -1}}),
+            5 => json!({"mapping": {"primary": -1}}),
+            // near misses of serde's struct-from-sequence form
+            6 => json!([{"primary": 300}]),
+            7 => json!([]),
+            8 => json!([{"primary": 1}, {}]),
+            9 => json!([1]),
+            _ => json!([{"mapping": {"primary": 1}}]),
         }),
+        // serde reads a struct from the sequence of its fields too: [mapping]
+        8 => Given::Good(if rng.chance(1, 2) { json!([{"primary": 1, "motorway": 0}]) } else { json!([{}]) }, ()),
         5 => Given::Good(json!({"mapping": {}}), ()),
         _ => Given::Good(json!({"mapping": {"motorway": 0, "primary": 1}, "comment": "x"}), ()),
     };
@@ -535,11 +613,32 @@ pub fn edge_builder_case(ctx: &mut Ctx, idx: usize, files: &Files) {
             let mut q = q0.clone();
             let r = catch_unwind(AssertUnwindSafe(|| p.process(&mut q))).map_err(|_| ());
             probe_ok = Some(matches!(r, Ok(Ok(()))));
+            if r.is_err() {
+                ctx.fail(idx, "builder/built-plugin-panics", format!("the plugin built from {} panicked on {}", cfg, q0));
+            }
             format!("ok {}", outcome_line(&r, &q))
         }
     };
     // candidate table of the probe query, from an identical tree (only when the geometry file is good)
-    let scan = if geo.exists && geo.content_ok && !geo_empty {
+    // whether a row with a non-finite coordinate gets past the WKT reader is the reader's business (it is asked);
+    // a row of finite coordinates must get past it
+    let geo_readable = geo.exists
+        && geo.content_ok
+        && match geo_nonfinite {
+            None => true,
+            Some((_, finite_coordinates)) => {
+                let parsed = routee_compass_core::util::geo::geo_io_utils::read_linestring_text_file(format!("{}/b_geometries.txt", files.dir)).is_ok();
+                if finite_coordinates && !parsed {
+                    ctx.fail(idx, "harness/geometry-reader", "a linestring of finite coordinates was refused by the reader".to_string());
+                }
+                parsed
+            }
+        };
+    let nonfinite_seen = geo_nonfinite.is_some() && geo_readable;
+    if nonfinite_seen {
+        ctx.count("builder_edge_geometry_with_non_finite_coordinate_or_centroid");
+    }
+    let scan = if geo_readable && !geo_empty && !nonfinite_seen {
         match EdgeRtreeInputPlugin::new(None, None, format!("{}/b_geometries.txt", files.dir), None, None, serde_json::from_value(json!({"mapping": {}})).unwrap()) {
             Ok(p) => edge_scan(ctx, idx, &p, n_geo, to_f32(PROBE_Q), &None).ok(),
             Err(_) => None,
@@ -555,12 +654,13 @@ pub fn edge_builder_case(ctx: &mut Ctx, idx: usize, files: &Files) {
         }
     };
     let case = format!(
-        "b e {} {} {} {} {} {} {}",
+        "b e {} {} {} {} {} {} {} {}",
         enc(&cfg),
         file_tok(&rc, rc_len),
         if vr.exists && vr.content_ok { 1 } else { 0 },
-        file_tok(&geo, n_geo),
+        if geo_readable { format!("s {}", n_geo) } else { "n".to_string() },
         if geo_empty { 1 } else { 0 },
+        if nonfinite_seen { 1 } else { 0 },
         enc(&q0),
         ecands_tokens(&scan)
     );
@@ -581,6 +681,7 @@ pub fn edge_builder_case(ctx: &mut Ctx, idx: usize, files: &Files) {
     }
     let valid = file_valid(&geo, false)
         && !geo_empty
+        && geo_nonfinite.is_none()
         && file_valid(&rc, true)
         && file_valid(&vr, true)
         && (rc.value.is_none() || rc_len == n_geo)
